@@ -30,8 +30,9 @@ def run(tier: str, rep: Report):
         "prefix of co_varnames and co_freevars are pinned (they are meaning, not artefact)",
     ]
 
-    def mc(v):
-        cfgd = wd / f"MC_Decode_canon_{v}.cfg"
+    def mc(job):
+        v, sc = job
+        cfgd = wd / f"MC_Decode_canon_{v}_{sc}.cfg"
         cfgd.write_text(f"""SPECIFICATION Spec
 CONSTANTS
   Ver = "{v}"
@@ -39,14 +40,17 @@ CONSTANTS
   MaxPrefix = 1
   Classes = {{"EXT", "JABS", "JREL", "NAME", "LOCAL", "FREE", "CONST", "NOARG", "RAW"}}
   ByteVals = {{0, 1, 2, 4}}
+  Scope = "{sc}"
   Emit = FALSE
 INVARIANT CanonicalModel
 INVARIANT NormalizeModel
 """)
-        return v, run_tlc("MC_Decode", str(cfgd), workers=max(2, NCPU // 4), timeout=3000, heap="6g")
+        return v + "/" + sc, run_tlc("MC_Decode", str(cfgd), workers=max(2, NCPU // 4), timeout=3000, heap="6g")
 
+    mjobs = [(v, "module") for v in SUPPORTED] + [(v, sc) for v in (SUPPORTED if tier == "thorough" else ["38", "310"])
+                                                  for sc in ("fn", "fndoc")]
     with ThreadPoolExecutor(max_workers=4) as ex:
-        for v, rr in ex.map(mc, SUPPORTED):
+        for v, rr in ex.map(mc, mjobs):
             rep.add_tlc(rr, f"MC_Decode+CanonicalModel+NormalizeModel[{v}]")
             if rr.violated:
                 rep.machinery_error(f"canonical-form invariants violated on the reference model [{v}]: {rr.violated[:2]}")
